@@ -23,7 +23,10 @@ QUICK_BUDGET_S = 120
 THOROUGH_BUDGET_S = 900
 CHUNK = 400
 RULE = ("seeded family of 3-6 near-colliding request shapes (each differs from a base in 1-2 of method/scheme/host/port/"
-        "path/query value/ignored query param/body/form field/ignored form field/header) -> 2-8 recordings drawn from the "
+        "path/query value/ignored query param/body/form field/ignored form field/header; urlencoded and multipart forms "
+        "with a field name occurring 2-3 times, differing in the first / a middle / the last occurrence, in the order of "
+        "the same multiset, in the number of occurrences or in the encoding; ~30% of the families are centred on such a "
+        "form) -> 2-8 recordings drawn from the "
         "family with repetition (colliding keys), ~20% without response, rare TCP flows; 3-12 ops: requests drawn from the "
         "family, option changes over every matching option + reuse/extra/kill_extra/refresh, add/load/stop commands, count "
         "observations; non-trivial = at least one recording served AND (an option change re-indexed a non-empty set OR a "
@@ -33,14 +36,16 @@ COMPONENTS_STUB = ["event loop clock (VLoop)", "time.time (sim clock)", "proxy c
                    "AddonManager.handle_lifecycle)", "flow file loading (recordings are handed over with the replay.server commands)"]
 ASSUMPTIONS = ["the matching key is the tuple of the statement: method, scheme, path, ordered non-ignored query pairs, host and "
                "port unless ignored, body (or, when payload params are ignored and the body is a non-empty form, the ordered "
-               "non-ignored form fields) unless content is ignored, and the values of the configured headers",
+               "list of ALL (name, value) pairs whose name is not ignored — every occurrence of a repeated name counts) "
+               "unless content is ignored, and the values of the configured headers",
                "'served at most once' counts servings made while reuse is off; under reuse the first not-yet-consumed recording "
                "with a response is the one to serve",
                "when no recording with a response remains the addon may regard replay as inactive: forwarding is accepted then",
                "replay.server.count may or may not include response-less/non-HTTP recordings (bounds check only)",
                "kill_extra together with a numeric server_replay_extra: kill or status are both accepted"]
 EXPECTED_PROBES = ["served", "served_colliding_key", "served_after_reindex", "unmatched_forward", "unmatched_kill",
-                   "unmatched_status", "reuse_served_again", "responseless_skipped", "reindex_nonempty", "count_checked"]
+                   "unmatched_status", "reuse_served_again", "responseless_skipped", "reindex_nonempty", "count_checked",
+                   "repeated_form_field", "repeated_form_later_occurrence_differs", "served_repeated_form"]
 
 HASH_OPTS = ["server_replay_ignore_content", "server_replay_ignore_host", "server_replay_ignore_params",
              "server_replay_ignore_payload_params", "server_replay_ignore_port", "server_replay_use_headers"]
@@ -53,6 +58,8 @@ QUERY_ATOMS = [["x", "1"], ["x", "2"], ["y", "1"], ["y", "2"], ["sid", "s1"], ["
                ["sidx", "1"], ["sidx", "2"]]   # "sidx" is never ignored although "sid" often is
 FORM_SETS = [[["u", "1"], ["tok", "t1"]], [["u", "1"], ["tok", "t2"]], [["u", "2"], ["tok", "t1"]],
              [["tok", "t3"], ["u", "1"]], [["u", "1"]], [["u", "1"], ["tokx", "t1"]], [["u", "1"], ["tokx", "t2"]]]
+REP_VALUES = ["a", "b", "c"]    # values of a repeated form field ("item" is never ignored, "u" and "tok" sometimes are)
+PAYLOAD_IGN = [[], ["tok"], ["tok"], ["u"], ["nope"], ["tok", "u"]]
 
 
 # ---------------------------------------------------------------------------
@@ -65,19 +72,85 @@ def _base(r):
             "ctype": None, "body": "", "form": [], "headers": []}
 
 
+def _rep_form(r):
+    """A form in which one field name occurs 2-3 times (values drawn with repetition from REP_VALUES), optionally with an
+    often-ignored ``tok`` field and one more single-valued field at random positions."""
+    name = r.choice(["item", "item", "u"])
+    form = [[name, r.choice(REP_VALUES)] for _ in range(r.choice([2, 2, 3]))]
+    if r.random() < 0.7:
+        form.insert(r.randrange(len(form) + 1), ["tok", r.choice(["t1", "t2"])])
+    if r.random() < 0.3:
+        form.insert(r.randrange(len(form) + 1), ["u" if name == "item" else "item", "1"])
+    return form
+
+
 def _set_body(r, s):
-    k = r.choice(["raw", "raw", "form", "form", "multipart"])
+    k = r.choice(["raw", "raw", "form", "form", "multipart", "multipart"])
     if k == "raw":
         s["ctype"], s["form"], s["body"] = None, [], r.choice(["body1", "body2", "", "body1"])
+    elif r.random() < 0.4:
+        s["ctype"], s["form"], s["body"] = k, _rep_form(r), ""
     else:
         s["ctype"], s["form"], s["body"] = k, copy.deepcopy(r.choice(FORM_SETS)), ""
 
 
-def _mutate(r, s):
+def _mutate_form(r, s):
+    """Change a form body in one place: one occurrence (first / middle / last) of a repeated field, the order of the
+    occurrences of a repeated field (same multiset), the often-ignored field, the encoding, or the number of
+    occurrences of a field."""
+    form = s["form"]
+    names = [k for k, _ in form]
+    rep = sorted(set(k for k in names if names.count(k) > 1))
+    how = r.choice(["occ", "occ", "occ", "order", "order", "ign", "enc", "dup", "drop"])
+    if how in ("occ", "order", "drop") and not rep:
+        how = "dup"
+    if how in ("occ", "order", "drop"):
+        k = r.choice(rep)
+        idx = [i for i, (a, _) in enumerate(form) if a == k]
+        pos = r.choice(["first", "middle", "last"])
+        i = idx[0] if pos == "first" else idx[-1] if pos == "last" else idx[len(idx) // 2]
+        vals = [form[j][1] for j in idx]
+        if how == "drop":
+            del form[i]
+        elif how == "occ" or len(set(vals)) == 1:
+            form[i][1] = r.choice([v for v in REP_VALUES if v != form[i][1]])
+        else:
+            vals = vals[1:] + vals[:1]      # same multiset, different order
+            for j, v in zip(idx, vals):
+                form[j][1] = v
+    elif how == "ign":
+        at = [i for i, (a, _) in enumerate(form) if a == "tok"]
+        if not at:
+            form.insert(r.randrange(len(form) + 1), ["tok", r.choice(["t1", "t2", "t3"])])
+        elif r.random() < 0.75:
+            form[at[0]][1] = r.choice([v for v in ["t1", "t2", "t3"] if v != form[at[0]][1]])
+        else:
+            del form[at[0]]
+            if not form:
+                form.append(["u", "1"])
+    elif how == "enc":
+        s["ctype"] = "multipart" if s["ctype"] == "form" else "form"
+    elif how == "dup":
+        cand = sorted(set(k for k in names if k != "tok")) or ["item"]
+        k = r.choice(cand)
+        idx = [i for i, (a, _) in enumerate(form) if a == k]
+        at = r.choice([idx[-1] + 1 if idx else len(form), len(form), idx[0] if idx else 0])
+        form.insert(at, [k, r.choice(REP_VALUES + ["1"])])
+
+
+def _mutate(r, s, focus=False):
     s = copy.deepcopy(s)
     what = r.choice(["method", "scheme", "host", "port", "path", "query", "query", "query_ign", "body", "body", "header",
-                     "header"])
-    if what == "method":
+                     "header", "form", "form"])
+    if focus and r.random() < 0.6:
+        what = "form"
+    if what == "form":
+        if s["form"] and s["ctype"] in ("form", "multipart"):
+            _mutate_form(r, s)
+        else:
+            s["method"] = "POST"
+            s["ctype"], s["form"], s["body"] = r.choice(["form", "multipart"]), _rep_form(r), ""
+    elif what == "method":
         s["method"] = "POST" if s["method"] == "GET" else "GET"
     elif what == "scheme":
         s["scheme"] = "https" if s["scheme"] == "http" else "http"
@@ -132,7 +205,7 @@ def _gen_opts(r, full):
         elif name == "server_replay_ignore_params":
             o[name] = r.choice([[], ["sid"], ["sid"], ["y"], ["sid", "y"], ["x", "y", "sid", "z"]])
         elif name == "server_replay_ignore_payload_params":
-            o[name] = r.choice([[], ["tok"], ["tok"], ["u"], ["nope"]])
+            o[name] = list(r.choice(PAYLOAD_IGN))
         elif name == "server_replay_use_headers":
             o[name] = r.choice([[], ["x-tag"], ["X-Tag"], ["x-tag", "accept"]])
         elif name == "server_replay_extra":
@@ -153,14 +226,20 @@ def _rec(r, fam):
 def generate(rng, tier):
     r = rng.at("c52")
     base = _base(r)
-    if base["method"] == "POST":
+    # focus: ~30% of the families are built around a form body with a repeated field name (urlencoded or multipart) and
+    # vary mostly in single occurrences / order of that field; the options are still drawn over every combination
+    focus = r.random() < 0.3
+    if focus:
+        base["method"] = "POST"
+        base["ctype"], base["form"], base["body"] = r.choice(["form", "multipart"]), _rep_form(r), ""
+    elif base["method"] == "POST":
         _set_body(r, base)
     fam = [base]
     for _ in range(r.choice([2, 3, 3, 4, 5])):
         src = r.choice(fam)
-        v = _mutate(r, src)
+        v = _mutate(r, src, focus)
         if r.random() < 0.3:
-            v = _mutate(r, v)
+            v = _mutate(r, v, focus)
         fam.append(v)
     flows = [_rec(r, fam) for _ in range(r.choice([2, 3, 3, 4, 5, 6, 8]))]
     ops = []
@@ -184,7 +263,11 @@ def generate(rng, tier):
         for s in r.sample(fam, len(fam)):
             ops.append({"op": "req", "r": copy.deepcopy(s)})
         ops.append({"op": "count"})
-    return {"family": "serverplayback", "options": _gen_opts(r, True), "flows": flows, "ops": ops}
+    options = _gen_opts(r, True)
+    if focus and r.random() < 0.6:
+        # field-by-field comparison of form bodies is only in effect with a non-empty ignore list
+        options["server_replay_ignore_payload_params"] = list(r.choice(PAYLOAD_IGN[1:]))
+    return {"family": "serverplayback", "options": options, "flows": flows, "ops": ops}
 
 
 # ---------------------------------------------------------------------------
@@ -221,6 +304,34 @@ def key_parts(s, o, strict=True):
             k["body"] = _body_bytes(s)
     k["headers"] = tuple((h.lower(), _hdr(s, h)) for h in o["server_replay_use_headers"])
     return k
+
+
+def _form_mode(s, o):
+    """The body of ``s`` is compared field by field under ``o``."""
+    return bool(not o["server_replay_ignore_content"] and o["server_replay_ignore_payload_params"] and _is_form(s))
+
+
+def _rep_names(s, o):
+    """Non-ignored form field names occurring more than once (coverage counters only)."""
+    names = [a for a, _ in s.get("form", []) if a not in o["server_replay_ignore_payload_params"]]
+    return sorted(set(a for a in names if names.count(a) > 1))
+
+
+def _later_occurrence_only(a, b, o):
+    """Coverage counter: the keys of ``a`` and ``b`` differ, but only in a second or later occurrence of a repeated
+    non-ignored form field (the first value of every field name, and everything else, are equal)."""
+    if not (_form_mode(a, o) and _form_mode(b, o)):
+        return False
+    ka, kb = key_parts(a, o), key_parts(b, o)
+    if _differs(ka, kb) != ["form"]:
+        return False
+
+    def firsts(k):
+        out = {}
+        for n, v in k["form"]:
+            out.setdefault(n, v)
+        return list(out.items())
+    return firsts(ka) == firsts(kb)
 
 
 class Model:
@@ -415,6 +526,11 @@ def execute(sc):
                 cands = model.candidates(req)
                 loose = model.candidates(req, strict=False)
                 reuse = model.reuse()
+                rep_req = _form_mode(req, model.o) and bool(_rep_names(req, model.o))
+                if rep_req:
+                    probe("repeated_form_field")
+                    if any(_later_occurrence_only(req, c["spec"], model.o) for c in model.remaining() if c["has_resp"]):
+                        probe("repeated_form_later_occurrence_differs")
                 await host.hook(lhttp.HttpRequestHook(f))
                 out = _outcome(f)
                 log.append(("req", out))
@@ -449,6 +565,8 @@ def execute(sc):
                         if len(cands) > 1:
                             probe("served_colliding_key")
                             state["collide"] = True
+                        if rep_req:
+                            probe("served_repeated_form")
                         if model.reindexed:
                             probe("served_after_reindex")
                         if rec["served"] and reuse:
